@@ -44,7 +44,7 @@ def cfgOf (j : Json) : Cfg :=
   let b := (j.getObjVal? "blocking").toOption.getD Json.null
   { u := ⟨J.boolD u "allow_in_tests" true, J.boolD u "allow_expect" true⟩,
     c := ⟨J.boolD c "allow_in_tests" true, J.boolD c "detect_clone_in_loop" true, J.boolD c "detect_clone_chain" true, J.boolD c "detect_unnecessary_clone" true⟩,
-    b := ⟨J.boolD b "allow_in_tests" true, J.boolD b "detect_fs_in_async" true, J.boolD b "detect_sleep_in_async" true, J.boolD b "detect_net_in_async" true⟩ }
+    b := ⟨J.boolD b "allow_in_tests" true, J.boolD b "detect_fs_in_async" true, J.boolD b "detect_sleep_in_async" true, J.boolD b "detect_net_in_async" true, (J.strsD j "shadowed").map String.toList⟩ }
 
 /-- frames under which the repaired test-context reading gives what the pre-repair code computed -/
 def oldFrames (frames : List Frame) : List Frame :=
